@@ -13,6 +13,7 @@ from __future__ import annotations
 
 import ast
 import collections.abc
+import enum
 import math
 import numbers
 import sys
@@ -40,6 +41,44 @@ class _Return(Exception):
 
 class Token(str):
     """Symbolic constant (enum member, opaque object) compared by identity of its text."""
+
+
+class Term:
+    """Symbolic constructor application (e.g. a libcst node built by the analysed code)."""
+
+    FIELDS = {
+        "Float": ("value",), "Integer": ("value",), "SimpleString": ("value",), "Name": ("value",), "Imaginary": ("value",),
+        "UnaryOperation": ("operator", "expression"), "BinaryOperation": ("left", "operator", "right"),
+        "Call": ("func", "args"), "Arg": ("value", "keyword"), "Attribute": ("value", "attr"),
+        "Element": ("value", "comma"), "DictElement": ("key", "value"), "List": ("elements",), "Tuple": ("elements",), "Set": ("elements",),
+        "Dict": ("elements",), "Comparison": ("left", "comparisons"), "ComparisonTarget": ("operator", "comparator"),
+        "Assert": ("test",), "SimpleStatementLine": ("body",), "parse_expression": ("source",), "Comma": (), "Minus": (), "Plus": (),
+    }
+
+    def __init__(self, name, args, kwargs):
+        self.name = name.split(".")[-1]
+        fields = self.FIELDS.get(self.name, ())
+        self.fields = dict(kwargs)
+        for f, a in zip(fields, args):
+            self.fields[f] = a
+        self.extra_args = list(args[len(fields):])
+
+    def get(self, attr):
+        if attr in self.fields:
+            return self.fields[attr]
+        if attr == "evaluated_value" and self.name == "SimpleString":
+            try:
+                return ast.literal_eval(self.fields["value"])
+            except (ValueError, SyntaxError) as exc:
+                raise Raises("CSTValidationError", f"invalid string literal {self.fields['value']!r}") from exc
+        if attr in ("args", "elements", "comparisons", "body"):
+            return []
+        if attr in ("keyword", "comma"):
+            return None
+        raise Undecided(f"field `{attr}` of {self.name}")
+
+    def __repr__(self):
+        return f"{self.name}({', '.join(f'{k}={v!r}' for k, v in self.fields.items())})"
 
 
 class Closure:
@@ -85,7 +124,7 @@ TYPES = {
     "numbers.Number": numbers.Number, "Number": numbers.Number, "numbers.Real": numbers.Real, "numbers.Integral": numbers.Integral,
     "Sized": collections.abc.Sized, "Iterable": collections.abc.Iterable, "Sequence": collections.abc.Sequence, "Mapping": collections.abc.Mapping,
     "Collection": collections.abc.Collection, "Hashable": collections.abc.Hashable,
-    "BaseException": BaseException, "Exception": Exception, "NoneType": type(None),
+    "BaseException": BaseException, "Exception": Exception, "NoneType": type(None), "enum.Enum": enum.Enum, "Enum": enum.Enum,
 }
 
 PURE = {
@@ -127,7 +166,8 @@ class Interp:
     """resolver(dotted name, module) -> (FunctionDef, Module) | None resolves calls into the analysed package.
     identity: names of calls treated as identity on their first argument; sinks: names of calls recorded, not evaluated."""
 
-    def __init__(self, resolver=None, identity=(), sinks=(), max_steps: int = 200000, on_store=None):
+    def __init__(self, resolver=None, identity=(), sinks=(), max_steps: int = 200000, on_store=None, ctor_prefixes=()):
+        self.ctor_prefixes = tuple(ctor_prefixes)
         self.resolver = resolver
         self.identity = set(identity)
         self.sinks = set(sinks)
@@ -168,6 +208,10 @@ class Interp:
                 return Token(t)
             if isinstance(base, Token):
                 return Token(f"{base}.{e.attr}")
+            if isinstance(base, Term):
+                return base.get(e.attr)
+            if isinstance(base, enum.Enum) and e.attr in ("name", "value"):
+                return getattr(base, e.attr)
             if e.attr in ("real", "imag", "numerator", "denominator", "__name__", "__class__", "__mro__", "__bases__", "__qualname__", "__module__") and not isinstance(base, dict):
                 return _guard(getattr, base, e.attr)
             if isinstance(base, dict) and e.attr in base:
@@ -188,8 +232,12 @@ class Interp:
             if f is None:
                 raise Undecided("binary op")
             a, b = self.ev(e.left, env, mod), self.ev(e.right, env, mod)
-            if isinstance(a, type) and isinstance(b, type) and isinstance(e.op, ast.BitOr):
-                return (a, b)
+            if isinstance(e.op, ast.BitOr) and isinstance(a, (type, Token, tuple)) and isinstance(b, (type, Token)) and not isinstance(a, bool):
+                if isinstance(a, tuple):
+                    if all(isinstance(x, (type, Token)) for x in a):
+                        return (*a, b)
+                else:
+                    return (a, b)
             if isinstance(a, tuple) and isinstance(b, type) and isinstance(e.op, ast.BitOr) and all(isinstance(x, type) for x in a):
                 return (*a, b)
             return _guard(f, a, b)
@@ -294,9 +342,16 @@ class Interp:
             return args[0]
         if name == "isinstance":
             typ = args[1]
+            if isinstance(args[0], Term):
+                names = [str(t).split(".")[-1] for t in (typ if isinstance(typ, tuple) else (typ,)) if isinstance(t, Token)]
+                return args[0].name in names
+            if isinstance(typ, Token) or (isinstance(typ, tuple) and any(isinstance(t, Token) for t in typ)):
+                return False
             if isinstance(args[0], Token):
                 return False
             return _guard(isinstance, args[0], typ)
+        if self.ctor_prefixes and name.startswith(self.ctor_prefixes):
+            return Term(name, args, kwargs)
         fval = env.get(name)
         if isinstance(fval, Closure):
             return fval.interp.apply(fval, args, kwargs, mod)
@@ -307,6 +362,12 @@ class Interp:
             if r is not None:
                 fn, fmod = r
                 return self.run_function(fn, args, kwargs, fmod)
+        if isinstance(e.func, ast.Attribute) and e.func.attr == "with_changes":
+            base = self.ev(e.func.value, env, mod)
+            if isinstance(base, Term):
+                new = Term(base.name, [], dict(base.fields))
+                new.fields.update(kwargs)
+                return new
         if isinstance(e.func, ast.Attribute) and e.func.attr in STR_METHODS:
             try:
                 base = self.ev(e.func.value, env, mod)
